@@ -8,6 +8,7 @@ delays, ThreadSanitizer in the thorough tier.
 import os
 import sys
 
+sys.path.insert(0, os.path.dirname(os.path.dirname(os.path.abspath(__file__))))   # tools/ (when run as a script)
 import vlib
 from vlib import Toks, h2f
 
@@ -18,25 +19,44 @@ ID = "C18"
 LEVEL = "other"
 EXPLANATION = (
     "PARTIAL. A data race is a fact about the C++ memory model and the compiled code; no Lean model of the library exhibits one, so "
-    "'no data races' and 'bit-identical results' are NOT proved. Proved in Lean (11 obligations, all schedules / assignments / "
-    "interleavings): tasks running at the same time have different worker ids, hence per-worker buffers are never written "
-    "concurrently (on the pool protocol model of C17); the (trial, fold) tasks of ml::tune write disjoint ranges of m_values and "
-    "distinct m_extras slots, in bounds, and read only slots written before the batch (C13 slot arithmetic + C16 addressing); "
+    "'no data races' and 'bit-identical results' are NOT proved. Proved in Lean (34 obligations, all schedules / assignments / "
+    "interleavings / pool sizes): tasks running at the same time have different worker ids, hence per-worker buffers are never written "
+    "concurrently (on the pool protocol model of C17); INLINE operator calls (the sequential path of pool_t::map: at most one chunk "
+    "or a 1-thread pool, the caller runs the operator with tnum 0) and worker-run tasks that are live at the same time belong to "
+    "different calls or use different slots, so buffers owned by a per-call object are never shared (inline_calls_share_no_buffer; "
+    "with buffers owned by the shared object two inline calls collide on slot 0: kernel-checked witness = seeded C18-e1); after a "
+    "client has left map no task of the call runs in any later state (no_task_outlives_call: stack captures are safe); the (trial, "
+    "fold) tasks of ml::tune write disjoint ranges of m_values and distinct m_extras slots, in bounds, and read only slots written "
+    "before the batch (C13 slot arithmetic + C16 addressing); the batch AS CODED (warm-start data read from the live result) leaves "
+    "the same result for every order of its tasks because the closest trial is an earlier one (tune_schedule_independent; witness "
+    "with a closest trial inside the batch = seeded C18-c1), hence the whole ml::result_t of a fit (fit_result_schedule_independent); "
     "sum_reduce / min_reduce_feature give the same value for every assignment of chunks to workers in exact arithmetic (min: for "
     "every schedule whose workers process their features in increasing index order - what pool_t::map produces -, exact ties "
     "allowed: the result is the lexicographic minimum of (score, feature index) = what one worker alone selects; for the table "
-    "learners' lexicographic caches no order hypothesis; the score-only rule before commit 62472c9 is shown schedule dependent); with per-call clones of the line-search prototypes the state of a "
-    "minimize call depends on the solver object and the call's own arguments only; every mutable member / non-const static / "
-    "pointer-or-reference member found by a regex-level scan of the current sources is in a reviewed allow-list (decide). "
+    "learners' lexicographic caches no order hypothesis; the score-only rule before commit 62472c9 is shown schedule dependent); the "
+    "BFS decision-tree fit with an own feature->worker assignment at every node builds the tree one thread builds "
+    "(dtree_fit_assignment_independent); select_iterator_t's loop visits the same features for every pool size "
+    "(feature_selection_thread_count_independent; the seeded per-worker-range variant C18-e3 drops features: kernel-checked); with "
+    "per-call clones of the line-search prototypes the state of a minimize call depends on the solver object and the call's own "
+    "arguments only; every mutable member / non-const static (function-local ones included) / thread_local / namespace-scope "
+    "variable / pointer-or-reference member / member whose class has mutable state found by a regex-level scan of the current "
+    "sources is in a reviewed allow-list (kernel-checked; every hit outside it breaks the check BEFORE anything runs, naming "
+    "file:line). "
     "TESTED, labelled as testing (the counts under evaluations / distinct_nontrivial): the same calls executed alone, then from "
-    "2..16 threads at once, then alone again on ONE shared solver / loss + tensors / dataset / fitted model must be bit-identical; "
-    "weak-learner fits and full fits of linear (4 regularisers) and gboost models repeated with dataset pools of 1..16 threads, "
+    "2..16 threads at once, then alone again on ONE shared solver (every deterministic solver id also with functions of pairwise "
+    "DIFFERENT sizes at the same time) / loss + tensors / dataset / fitted linear and gboost model (also with at most `batch` "
+    "samples per call and with 1-thread dataset pools: every caller on the inline path) must be bit-identical; "
+    "weak-learner fits and full fits of linear (4 regularisers) and gboost models repeated with dataset pools of 1..16 threads "
+    "(grid: pools 1, 2, 3, 4, 5, 7, 16 x 1..32 scalar / 1..8 categorical features with the signal in the LAST feature), "
     "pool_t::max_size() capped to 1, 2, all (by interposing std::thread::hardware_concurrency in the harness, the hook H1b does "
     "not exist), CPU affinity of 1 or 2 cores and random delays at the pool's synchronisation points must select the same features "
     "and predict within 1e-5 relative (a selection that flips between two candidates whose scores agree within 1e-7 on inputs "
     "that differ by rounding only is counted as near_tie_flip, not compared); duplicated columns must give the smallest copy and "
-    "identical results; the thorough tier runs all of it under ThreadSanitizer (halt_on_error). Only the two "
-    "reductions of reduce.h have a model/implementation correspondence (Lean driver at Float vs the real templates, exact).")
+    "identical results; the thorough tier runs ALL of these scenarios under ThreadSanitizer (halt_on_error): the harness and "
+    "libnano are built with -fsanitize=thread, so every op family of the generator (reduce, shared minimize incl. different sizes, "
+    "shared loss / dataset / predict incl. the inline path, wfit incl. the grid, wtie, fit linear / gboost incl. the grid) is a TSan "
+    "scenario. Only the two reductions of reduce.h have a model/implementation correspondence (Lean driver at Float vs the real "
+    "templates, exact).")
 HARNESS = "c18"
 LEAN_MODULES = ["NanoVerif.Props.C18"]
 NS = "NanoVerif.C18."
@@ -44,6 +64,16 @@ OBLIGATIONS = [NS + t for t in [
     "perthread_buffers_exclusive", "seqpath_one_at_a_time", "tune_writes_disjoint", "sum_reduce_assignment_independent",
     "sum_reduce_schedules_agree", "min_reduce_assignment_independent", "min_reduce_schedules_agree",
     "table_min_reduce_assignment_independent", "old_min_reduce_schedule_dependent", "minimize_is_pure", "mutable_state_allowlisted",
+    # gap-closing round: corollaries on the extended models of C09 / C10 / C11 / C13 / C17
+    "inline_calls_share_no_buffer", "shared_object_inline_calls_collide", "served_rows_independent_of_slot",
+    "no_task_outlives_call", "tune_schedule_independent",
+    "tune_live_read_in_flight_schedule_dependent", "fit_result_schedule_independent", "dtree_fit_assignment_independent",
+    "feature_selection_thread_count_independent", "seeded_feature_loop_drops_features",
+]] + ["NanoVerif.Sharing." + t for t in [
+    "reachable_owned", "live_has_call", "concurrent_acts_disjoint", "ready_forever",                    # Proofs/SharingPool.lean
+    "foldl_set_perm", "runBatch_schedule_independent", "runBatchLive_eq", "runTune_schedule_independent",   # Proofs/SharingTune.lean
+    "dtreeLoopS_eq", "stumpFitAssigned_eq", "dtree_fit_schedule_independent", "select_loop_thread_count_independent",
+    "seeded_loop_drops_features",                                                                       # Proofs/SharingFit.lean
 ]]
 TRUSTED = [
     "Lean 4.33.0 kernel; Mathlib modules Algebra.BigOperators.Group.List.Basic, Order.Defs.LinearOrder (+ what Props/C13 imports)",
@@ -53,7 +83,14 @@ TRUSTED = [
     "tied by the `reduce` ops of this check; the World/exec model of solver_t::make_lsearch: hand-written from solver.cpp:94-106 and "
     "solver/lsearch.cpp, NOT tied by a correspondence — it states the sharing discipline, the tests observe its consequence)",
     "tools/props/_c18_scan.py: a regex-level scanner, not a C++ parser (comments/strings stripped, brace tracking); cross-checked on "
-    "every run against a plain count of the `mutable` keyword; the reasons in the allow-list are a human review, not a proof",
+    "every run against a plain count of the `mutable` keyword, by the rule that every `static` / `thread_local` keyword of the "
+    "sources must have been classified (variable / constant / function) and by a self-test on snippets of the constructs it must "
+    "find; the reasons in the allow-list (ALLOW in tools/props/c18.py, mirrored into Proofs/SharingAllow.lean) are a human review, "
+    "not a proof",
+    "the new corollaries are theorems about the OTHER properties' models (Model/Pool.lean + PoolSection.lean of C17, Model/Tune.lean of "
+    "C13, Model/MLResult.lean of C11, Model/WLearnerTree.lean of C10, Model/IteratorSelect.lean of C09), each tied to the code by its "
+    "own property's correspondence; `Sharing.runBatchLive` (the live read of tune.cpp:25-41), `Sharing.dtreeLoopS`, `Sharing.Act` and "
+    "`Sharing.seededVisits` are hand-written in Proofs/Sharing*.lean and NOT tied by a correspondence",
     "harness/c18.cpp (thread start barrier, per-thread function objects/buffers/loggers, link-time interposition of "
     "std::thread::hardware_concurrency, sched_setaffinity, delays through pool hook H1), tools/props/c18.py (generator + oracle)",
     "ThreadSanitizer (thorough tier) for the observation of data races on the schedules that happened; g++/libstdc++/Eigen",
@@ -90,22 +127,33 @@ ASSUMPTIONS = [
     "trials / optimum / predictions beyond 1e-5 (a near-tie BETWEEN prototypes, in early stopping or between tuning trials is not "
     "recognised: continuous data make it improbable, it would be reported)",
     "the scan does not see: state reached through const_cast, globals of other libraries (Eigen, libstdc++), lambdas' captured "
-    "references, placement of objects in shared memory by the caller; `indirect` entries list declared types, not what is done through them",
+    "references, placement of objects in shared memory by the caller, members typed by a std::variant / template alias of a class with "
+    "mutable state (only std::vector / unique_ptr / shared_ptr / array / deque / list aliases are followed), classes identified by their "
+    "unqualified name (two classes with the same name in different namespaces are merged: over-approximation); `indirect` / `holder` "
+    "entries list declared types, not what is done through them; `static const` objects are skipped unless they are (smart) pointers to "
+    "non-const",
+    "inline_calls_share_no_buffer is a theorem about the pool MODEL (activities, calls, slots); that each libnano call site creates its "
+    "iterator / function object per call is the reviewed `[per-call]` reason of the allow-list (a new member holding one is a scan hit), "
+    "not a theorem about the C++ code",
     "feature_t::set_label is a const method that writes m_labels without synchronisation (used while loading only): concurrent "
     "set_label calls on a shared feature race; not an operation C18 quantifies over (harness op `shared setlabel` demonstrates it under TSan)",
     "pool sizes: the dataset's pool is set through the API; ml::tune's own pool only through the interposed hardware_concurrency "
     "(a harness device; with the real function it always has hardware_concurrency workers)",
 ]
-RULE = ("corpus (duplicated-column fits); exhaustive-small reduce schedules (every assignment of <= 4 contributions/candidates to <= 3 "
+RULE = ("corpus (duplicated-column fits, inline-path predicts, different-size minimize, (features, threads) pairs 9x8 / 17x16); exhaustive-small reduce schedules (every assignment of <= 4 contributions/candidates to <= 3 "
         "workers) + random reduce schedules (<= 16 workers, ties and non-finite scores included; min: 75% index-sorted schedules as the "
         "pool produces them - there the smallest feature index among the minimal scores is demanded -, 25% arbitrary ones - there any "
         "feature attaining the minimal score; minlex = the table learners' lexicographic caches: the smallest index on every "
         "schedule, workers seeing DEcreasing indices included); the 4 table learners on the dataset whose multi-label features precede "
         "the single-label ones with an exact tie across the two loops (1, 2..3, 4..16 threads x 40 repetitions); one `shared minimize` per deterministic solver type "
-        "(all but the 4 gradient-sampling ones) with random line-search pairs, 2..16 threads x 1..3 calls on distinct function objects; "
+        "(all but the 4 gradient-sampling ones) with random line-search pairs, 2..16 threads x 1..3 calls on distinct function objects, "
+        "one of them per solver id with 2..4 functions of pairwise DIFFERENT sizes (2..13) in flight at the same time; "
         "every loss id on shared tensors; shared datasets (flatten/select/targets + iterators on the shared pool); predict on shared "
-        "fitted linear/gboost models; every weak learner fitted repeatedly under pools of 1/2/3/16 threads, restricted affinity and "
-        "delays; full fits of ordinary/lasso/ridge/elastic-net and of gboost (weak-learner pools, subsample/bootstrap with fixed seed) "
+        "fitted linear/gboost models, also with at most `batch` samples per call or a 1-thread dataset pool (every caller on the inline "
+        "path of pool_t::map, tnum 0); every weak learner fitted repeatedly under pools of 1/2/3/16 threads, restricted affinity and "
+        "delays; the GRID: scalar learners with 1..32 continuous features and table learners with 1..8 categorical features, signal in "
+        "the LAST feature, under dataset pools 1, 2, 3, 4, 5, 7, 16 (every residue of features mod threads; distribution key grid:*), "
+        "gboost fits over the same pools; full fits of ordinary/lasso/ridge/elastic-net and of gboost (weak-learner pools, subsample/bootstrap with fixed seed) "
         "under configurations (dataset threads, max pool size, cpus, delay permille) always starting with the sequential reference "
         "(1, 1, all, 0); 30-40% of the datasets with duplicated columns (exact ties: the smallest copy and identical results are "
         "demanded); fits generated well-conditioned (see assumptions). A case is non-trivial when the concurrent run used >= 2 threads on shared objects / the fit was "
@@ -142,21 +190,254 @@ def lean_str(s):
     return '"' + s.replace("\\", "\\\\").replace('"', '\\"') + '"'
 
 
+# ---------------------------------------------------------------------------------------------------------------
+# the REVIEWED allow-list of state a `const` method can modify or that all objects share: (kind, file, class-or-function,
+# name, declared type, reason). The reason says why concurrent use through the const interface - each thread with its own
+# function object, as the property states - does not share the entry, or what synchronises it. Tags: [per-function] owned by one
+# function object, which one thread uses; [per-call] created inside the call; [per-worker] a vector with one slot per worker id
+# (`perthread_buffers_exclusive`), owned by a per-call object (`inline_calls_share_no_buffer`); [sync] protected by a mutex /
+# std::call_once / atomic; [owner] const access only calls const members of the pointee; [load] written while loading only.
+# Every hit of the scan outside this list breaks the check naming file:line (`translate`); the list is mirrored into
+# lean/NanoVerif/Proofs/SharingAllow.lean (`python3 tools/props/c18.py emit-allow`; `static_checks` compares the two) where
+# `mutable_state_allowlisted` checks `Gen.MutableState.table ⊆ allow` in the kernel.
+ALLOW = [
+    ('holder', 'include/nano/core/parallel.h', 'pool_t', 'm_queue', 'queue_t',
+     "[sync] the pool owns its queue: every access to m_tasks/m_stop is under m_mutex (lock discipline checked on traces by C17)"),
+    ('holder', 'include/nano/core/parallel.h', 'pool_t', 'm_workers', 'std::vector<worker_t>',
+     "[sync] written by the constructor, joined by the destructor; a worker only refers to the pool's queue"),
+    ('holder', 'include/nano/dataset.h', 'dataset_t', 'm_datasource', 'const datasource_t&',
+     "[owner] const access to the stored values; reaches feature_t::m_labels only through set_label, which no dataset / generator method calls ([load])"),
+    ('holder', 'include/nano/dataset.h', 'dataset_t', 'm_target', 'feature_t',
+     "[load] copy of the target feature made by the constructor; const methods only read it (no set_label)"),
+    ('holder', 'include/nano/dataset/iterator.h', 'base_dataset_iterator_t', 'm_dataset', 'const dataset_t&',
+     "[owner] iterators use the dataset's const interface with THEIR OWN buffers (flatten / select / targets) and its pool (C17: several submitters)"),
+    ('holder', 'include/nano/datasource.h', 'datasource_t', 'm_features', 'features_t',
+     "[load] feature_t::set_label is called by datasource_t::set while loading only (single-threaded)"),
+    ('holder', 'include/nano/datasource/imclass_cifar.h', 'cifar_datasource_t', 'm_target', 'feature_t',
+     "[load] used by do_load only"),
+    ('holder', 'include/nano/datasource/imclass_mnist.h', 'base_mnist_datasource_t', 'm_target', 'feature_t',
+     "[load] used by do_load only"),
+    ('holder', 'include/nano/datasource/storage.h', 'feature_storage_t', 'm_feature', 'const feature_t&',
+     "[load] the temporary through which datasource_t::set calls set_label: one per set() call while loading"),
+    ('holder', 'include/nano/datasource/tabular.h', 'tabular_datasource_t', 'm_features', 'features_t',
+     "[load] the declared features, handed to resize() by do_load"),
+    ('holder', 'include/nano/function/penalty.h', 'penalty_function_t', 'm_function', 'const function_t&',
+     "[per-call] built by the penalty / augmented-lagrangian solvers inside one minimize call around the caller's OWN function object"),
+    ('holder', 'include/nano/gboost/function.h', 'bias_function_t', 'm_iterator', 'const targets_iterator_t&',
+     "[per-call] the iterator is a local of the fit call that also builds this function (gboost/model.cpp: fit / fold task); buffers indexed by the pool's tnum"),
+    ('holder', 'include/nano/gboost/function.h', 'grads_function_t', 'm_iterator', 'const targets_iterator_t&',
+     "[per-call] the iterator is a local of the fit call that also builds this function (gboost/model.cpp: fit / fold task); buffers indexed by the pool's tnum"),
+    ('holder', 'include/nano/gboost/function.h', 'scale_function_t', 'm_iterator', 'const targets_iterator_t&',
+     "[per-call] the iterator is a local of the fit call that also builds this function (gboost/model.cpp: fit / fold task); buffers indexed by the pool's tnum"),
+    ('holder', 'include/nano/generator.h', 'generator_t', 'm_datasource', 'const datasource_t*',
+     "[owner] const access to the stored values; generators never call set_label"),
+    ('holder', 'include/nano/learner.h', 'learner_t', 'm_inputs', 'features_t',
+     "[load] copies of the dataset's features written by fit (non-const); predict only compares them with the dataset's"),
+    ('holder', 'include/nano/learner.h', 'learner_t', 'm_target', 'feature_t',
+     "[load] copy of the dataset's target written by fit (non-const); predict only compares it"),
+    ('holder', 'include/nano/linear/function.h', 'function_t', 'm_iterator', 'const flatten_iterator_t&',
+     "[per-call] the iterator is a local of the fit / fold task that also builds this function (linear.cpp:33); buffers indexed by the pool's tnum"),
+    ('holder', 'include/nano/solver/csearch.h', 'csearch_t', 'm_function', 'const function_t&',
+     "[per-call] csearch_t is a local of one bundle-solver minimize call and refers to the caller's own function object"),
+    ('holder', 'include/nano/solver/state.h', 'solver_state_t', 'm_function', 'const function_t*',
+     "[per-call] a state belongs to one minimize call and points to the caller's own function object (its call counters)"),
+    ('holder', 'src/lsearchk/cgdescent.cpp', 'lsearchk_cgdescent_t::interval_t', 'state0', 'const solver_state_t&',
+     "[per-call] local object of one lsearchk get() call, refers to the caller's own state"),
+    ('indirect', 'include/nano/core/parallel.h', 'worker_t', 'm_queue', 'queue_t&',
+     "[sync] the pool's queue: every access to m_tasks/m_stop is under m_mutex (lock discipline checked on traces by C17)"),
+    ('indirect', 'include/nano/dataset.h', 'dataset_t', 'm_generators', 'rgenerators_t',
+     '[owner] const dataset methods call only const generator members (select/flatten/feature); generators hold no mutable state'),
+    ('indirect', 'include/nano/dataset.h', 'dataset_t', 'm_pool', 'rtpool_t',
+     '[sync] thread_pool() const hands out the shared pool: pool_t::map is safe for several submitters (C17: queue under its mutex)'),
+    ('indirect', 'include/nano/factory.h', 'factory_t::proto_t', 'm_prototype', 'trobject',
+     '[owner] get() only clones the prototype (const); add() runs once under std::call_once'),
+    ('indirect', 'include/nano/function/constraint.h', 'functional_t', 'm_function', 'rfunction_t',
+     '[per-function] the wrapped function belongs to one constraint of one function object (own fcalls counters)'),
+    ('indirect', 'include/nano/gboost/model.h', 'gboost_model_t', 'm_prototypes', 'rwlearners_t',
+     '[owner] fit() clones each prototype per round (`prototype->clone()`), never fits the prototype itself'),
+    ('indirect', 'include/nano/gboost/model.h', 'gboost_model_t', 'm_wlearners', 'rwlearners_t',
+     '[owner] do_predict (const) calls wlearner_t::predict (const) only; written by fit() (non-const) after the parallel section'),
+    ('indirect', 'include/nano/gboost/result.h', 'result_t', 'm_wlearners', 'rwlearners_t',
+     '[per-call] the per-(trial, fold) booster, built inside one task and moved into its own m_extras slot (`tune_writes_disjoint`)'),
+    ('indirect', 'include/nano/logger.h', 'logger_t', 'm_pimpl', 'std::unique_ptr<impl_t>',
+     '[per-call] ml::tune makes one file logger per (trial, fold) task; a logger object shared by concurrent calls writes to one unsynchronised std::ostream — outside the statement, the harness gives every thread its own logger'),
+    ('indirect', 'include/nano/machine/params.h', 'params_t', 'm_solver', 'rsolver_t',
+     '[owner] solver() const returns const solver_t&: the ONE solver shared by all fold/trial tasks — see solver_t::m_lsearch0/k'),
+    ('indirect', 'include/nano/machine/params.h', 'params_t', 'm_splitter', 'rsplitter_t',
+     '[owner] split() is const and seeds its own rng per call; called before the parallel section'),
+    ('indirect', 'include/nano/machine/params.h', 'params_t', 'm_tuner', 'rtuner_t',
+     '[owner] optimize() is const, called by the one thread that runs ml::tune'),
+    ('indirect', 'include/nano/solver.h', 'solver_t', 'm_lsearch0', 'rlsearch0_t',
+     '[owner] PROTOTYPE: const methods only clone() it (make_lsearch) — the non-const lsearch0_t::get (m_prevf, m_prevdg) is called on the per-call clone (`minimize_is_pure`)'),
+    ('indirect', 'include/nano/solver.h', 'solver_t', 'm_lsearchk', 'rlsearchk_t',
+     '[owner] PROTOTYPE: const methods only clone() it (make_lsearch); lsearchk_t::get is const and keeps its state in locals'),
+    ('indirect', 'include/nano/solver/lsearch.h', 'lsearch_t', 'm_lsearch0', 'rlsearch0_t',
+     '[per-call] the clone made by make_lsearch for this minimize call; its history (m_prevf, m_prevdg) starts fresh'),
+    ('indirect', 'include/nano/solver/lsearch.h', 'lsearch_t', 'm_lsearchk', 'rlsearchk_t',
+     '[per-call] the clone made by make_lsearch for this minimize call'),
+    ('indirect', 'include/nano/tensor/storage.h', 'tensor_marray_storage_t', 'm_data', 'tscalar*',
+     '[owner] a mutable map is a view: who may write through it is decided by who holds the mapped buffer (per-worker / per-call buffers, disjoint slices by C16/C17 chunks_tile)'),
+    ('indirect', 'src/lsearchk/cgdescent.cpp', 'lsearchk_cgdescent_t::interval_t', 'c', 'solver_state_t&',
+     "[per-call] local object of one lsearchk get() call, refers to the caller's own state"),
+    ('mutable', 'include/nano/core/parallel.h', 'queue_t', 'm_condition', 'std::condition_variable',
+     '[sync] synchronisation primitive'),
+    ('mutable', 'include/nano/core/parallel.h', 'queue_t', 'm_mutex', 'std::mutex',
+     '[sync] synchronisation primitive'),
+    ('mutable', 'include/nano/dataset/iterator.h', 'flatten_iterator_t', 'm_flatten_buffers', 'buffers_t',
+     '[per-worker] concurrency() slots indexed by tnum; the iterator belongs to one function object / one fit call'),
+    ('mutable', 'include/nano/dataset/iterator.h', 'select_iterator_t', 'm_buffers', 'buffers_t',
+     "[per-worker] concurrency() slots indexed by tnum (tnum 0 on the caller's single-feature path); one iterator per weak-learner fit"),
+    ('mutable', 'include/nano/dataset/iterator.h', 'targets_iterator_t', 'm_targets_buffers', 'buffers_t',
+     '[per-worker] concurrency() slots indexed by tnum; the iterator belongs to one fit call'),
+    ('mutable', 'include/nano/feature.h', 'feature_t', 'm_labels', 'strings_t',
+     '[load] written by feature_t::set_label (const!) which datasource_t::set calls while loading, single-threaded. NOT synchronised: two threads calling set_label on a shared feature with free label slots would race — no const method of dataset/generator/model calls it; outside the operations C18 quantifies over (reported as an observation)'),
+    ('mutable', 'include/nano/function.h', 'function_t', 'm_fcalls', 'tensor_size_t',
+     '[per-function] call counter of one function object; each thread uses its own function object (statement of C18)'),
+    ('mutable', 'include/nano/function.h', 'function_t', 'm_gcalls', 'tensor_size_t',
+     '[per-function] call counter of one function object; each thread uses its own function object (statement of C18)'),
+    ('mutable', 'include/nano/gboost/function.h', 'bias_function_t', 'm_accumulators', 'accumulators_t',
+     '[per-function][per-worker] one slot per worker id, function object built inside one fold task'),
+    ('mutable', 'include/nano/gboost/function.h', 'bias_function_t', 'm_outputs', 'tensor4d_t',
+     '[per-function] written in disjoint sample ranges (chunks_tile), function object built inside one fold task'),
+    ('mutable', 'include/nano/gboost/function.h', 'bias_function_t', 'm_values', 'tensor1d_t',
+     '[per-function] written in disjoint sample ranges (chunks_tile), function object built inside one fold task'),
+    ('mutable', 'include/nano/gboost/function.h', 'bias_function_t', 'm_vgrads', 'tensor4d_t',
+     '[per-function] written in disjoint sample ranges (chunks_tile), function object built inside one fold task'),
+    ('mutable', 'include/nano/gboost/function.h', 'grads_function_t', 'm_values', 'tensor1d_t',
+     '[per-function] written in disjoint sample ranges (chunks_tile), function object built inside one fold task'),
+    ('mutable', 'include/nano/gboost/function.h', 'grads_function_t', 'm_vgrads', 'tensor4d_t',
+     '[per-function] written in disjoint sample ranges (chunks_tile), function object built inside one fold task'),
+    ('mutable', 'include/nano/gboost/function.h', 'scale_function_t', 'm_accumulators', 'accumulators_t',
+     '[per-function][per-worker] one slot per worker id, function object built inside one fold task'),
+    ('mutable', 'include/nano/gboost/function.h', 'scale_function_t', 'm_outputs', 'tensor4d_t',
+     '[per-function] written in disjoint sample ranges (chunks_tile), function object built inside one fold task'),
+    ('mutable', 'include/nano/gboost/function.h', 'scale_function_t', 'm_values', 'tensor1d_t',
+     '[per-function] written in disjoint sample ranges (chunks_tile), function object built inside one fold task'),
+    ('mutable', 'include/nano/gboost/function.h', 'scale_function_t', 'm_vgrads', 'tensor4d_t',
+     '[per-function] written in disjoint sample ranges (chunks_tile), function object built inside one fold task'),
+    ('mutable', 'include/nano/linear/function.h', 'function_t', 'm_accumulators', 'accumulators_t',
+     '[per-function][per-worker] one slot per worker id (linear/function.cpp:53), function object built inside one fit call'),
+    ('mutable', 'include/nano/solver/lsearch.h', 'lsearch_t', 'm_last_step_size', 'scalar_t',
+     '[per-call] member of the lsearch_t object that make_lsearch returns by value for this minimize call'),
+    ('mutable', 'include/nano/tuner/surrogate.h', 'quadratic_surrogate_fit_t', 'm_loss_outputs', 'tensor4d_t',
+     '[per-function] local function object of one surrogate tuner step, used by the tuning thread only'),
+    ('mutable', 'include/nano/tuner/surrogate.h', 'quadratic_surrogate_fit_t', 'm_loss_values', 'tensor1d_t',
+     '[per-function] local function object of one surrogate tuner step, used by the tuning thread only'),
+    ('mutable', 'include/nano/tuner/surrogate.h', 'quadratic_surrogate_fit_t', 'm_loss_vgrads', 'tensor4d_t',
+     '[per-function] local function object of one surrogate tuner step, used by the tuning thread only'),
+    ('mutable', 'src/lsearchk/cgdescent.cpp', 'lsearchk_cgdescent_t::params_t', 'm_max_iterations', 'int',
+     '[per-call] params_t is a local of one lsearchk get() call (make_params returns it by value)'),
+    ('mutable', 'src/program/solver.cpp', 'solver_t::program_t', 'm_ldlt', 'lin_solver_t',
+     '[per-call] program_t is a temporary of one solve() call'),
+    ('mutable', 'src/program/solver.cpp', 'solver_t::program_t', 'm_lmat', 'matrix_t',
+     '[per-call] program_t is a temporary of one solve() call'),
+    ('mutable', 'src/program/solver.cpp', 'solver_t::program_t', 'm_lsol', 'vector_t',
+     '[per-call] program_t is a temporary of one solve() call'),
+    ('mutable', 'src/program/solver.cpp', 'solver_t::program_t', 'm_lvec', 'vector_t',
+     '[per-call] program_t is a temporary of one solve() call'),
+    ('static', 'src/core/parallel.cpp', 'nano::verif::pool_hook', 'hook', 'static std::atomic<pool_hook_t>',
+     '[sync] verification hook H1 (NANO_VERIF builds only): an atomic function pointer'),
+    ('static', 'src/core/parallel.cpp', 'nano::verif::trace_sink', 'sink', 'thread_local trace_sink_t',
+     '[per-call] verification hook H2 (NANO_VERIF builds only): thread_local'),
+    ('static', 'src/datasource.cpp', 'datasource_t::all', 'flag', 'static std::once_flag',
+     '[sync] guards the registration below'),
+    ('static', 'src/datasource.cpp', 'datasource_t::all', 'manager', 'static auto',
+     '[sync] factory filled once under std::call_once, read-only afterwards (get() clones)'),
+    ('static', 'src/function.cpp', 'function_t::all', 'flag', 'static std::once_flag',
+     '[sync] guards the registration below'),
+    ('static', 'src/function.cpp', 'function_t::all', 'manager', 'static auto',
+     '[sync] factory filled once under std::call_once, read-only afterwards (get() clones)'),
+    ('static', 'src/generator.cpp', 'generator_t::all', 'flag', 'static std::once_flag',
+     '[sync] guards the registration below'),
+    ('static', 'src/generator.cpp', 'generator_t::all', 'manager', 'static auto',
+     '[sync] factory filled once under std::call_once, read-only afterwards (get() clones)'),
+    ('static', 'src/linear.cpp', 'linear_t::all', 'flag', 'static std::once_flag',
+     '[sync] guards the registration below'),
+    ('static', 'src/linear.cpp', 'linear_t::all', 'manager', 'static auto',
+     '[sync] factory filled once under std::call_once, read-only afterwards (get() clones)'),
+    ('static', 'src/loss.cpp', 'loss_t::all', 'flag', 'static std::once_flag',
+     '[sync] guards the registration below'),
+    ('static', 'src/loss.cpp', 'loss_t::all', 'manager', 'static auto',
+     '[sync] factory filled once under std::call_once, read-only afterwards (get() clones)'),
+    ('static', 'src/lsearch0.cpp', 'lsearch0_t::all', 'flag', 'static std::once_flag',
+     '[sync] guards the registration below'),
+    ('static', 'src/lsearch0.cpp', 'lsearch0_t::all', 'manager', 'static auto',
+     '[sync] factory filled once under std::call_once, read-only afterwards (get() clones)'),
+    ('static', 'src/lsearchk.cpp', 'lsearchk_t::all', 'flag', 'static std::once_flag',
+     '[sync] guards the registration below'),
+    ('static', 'src/lsearchk.cpp', 'lsearchk_t::all', 'manager', 'static auto',
+     '[sync] factory filled once under std::call_once, read-only afterwards (get() clones)'),
+    ('static', 'src/solver.cpp', 'solver_t::all', 'flag', 'static std::once_flag',
+     '[sync] guards the registration below'),
+    ('static', 'src/solver.cpp', 'solver_t::all', 'manager', 'static auto',
+     '[sync] factory filled once under std::call_once, read-only afterwards (get() clones)'),
+    ('static', 'src/splitter.cpp', 'splitter_t::all', 'flag', 'static std::once_flag',
+     '[sync] guards the registration below'),
+    ('static', 'src/splitter.cpp', 'splitter_t::all', 'manager', 'static auto',
+     '[sync] factory filled once under std::call_once, read-only afterwards (get() clones)'),
+    ('static', 'src/tuner.cpp', 'tuner_t::all', 'flag', 'static std::once_flag',
+     '[sync] guards the registration below'),
+    ('static', 'src/tuner.cpp', 'tuner_t::all', 'manager', 'static auto',
+     '[sync] factory filled once under std::call_once, read-only afterwards (get() clones)'),
+    ('static', 'src/wlearner.cpp', 'wlearner_t::all', 'flag', 'static std::once_flag',
+     '[sync] guards the registration below'),
+    ('static', 'src/wlearner.cpp', 'wlearner_t::all', 'manager', 'static auto',
+     '[sync] factory filled once under std::call_once, read-only afterwards (get() clones)'),
+]
+ALLOW_KEYS = {a[:5]: a[5] for a in ALLOW}
+ALLOW_LEAN = os.path.join(vlib.LEAN, "NanoVerif", "Proofs", "SharingAllow.lean")
+KIND_LEAN = {"mutable": ".mutable_", "static": ".static_", "indirect": ".indirect", "holder": ".holder"}
+KIND_TEXT = {"mutable": "`mutable` member", "static": "non-const static / thread_local / namespace-scope object",
+             "indirect": "member through which const does not propagate", "holder": "member of a class with mutable state"}
+
+
+def allow_lean_text():
+    lines = [
+        "import NanoVerif.Gen.MutableState",
+        "-- written by `python3 tools/props/c18.py emit-allow` from ALLOW of tools/props/c18.py (the reviewed list with its reasons);",
+        "-- tools/props/c18.py::static_checks fails when this file and ALLOW differ",
+        "namespace NanoVerif.C18",
+        "open NanoVerif.Gen.MutableState",
+        "",
+        "/-- the reviewed entries with the reason of each (tags: see tools/props/c18.py) -/",
+        "def allow : List (Entry × String) := [",
+    ]
+    rows = [f"  (⟨{KIND_LEAN[k]}, {lean_str(f)}, {lean_str(sc)}, {lean_str(n)}, {lean_str(t)}⟩,\n    {lean_str(r)})"
+            for (k, f, sc, n, t, r) in sorted(ALLOW)]
+    lines.append(",\n".join(rows))
+    lines += ["]", "", "end NanoVerif.C18", ""]
+    return "\n".join(lines)
+
+
+def scan_hits(repo):
+    """the scan evaluated against the allow-list: [message naming file:line] for every entry that was not reviewed, and the
+    scanner's own problems (unparsed declarations, unclassified `static` keywords)"""
+    r = _c18_scan.scan_full(repo)
+    out = list(r["problems"])
+    for e in r["entries"]:
+        if e not in ALLOW_KEYS:
+            k, f, sc, n, t = e
+            out.append(f"{f}:{r['lines'].get(e, 0)}: {KIND_TEXT[k]} `{n}` ({t}) in `{sc}` is not in the reviewed allow-list "
+                       f"(tools/props/c18.py ALLOW): state that concurrent const calls may share")
+    return out, r
+
+
 def translate():
-    """regex-level scan of /repo/include + /repo/src -> lean/NanoVerif/Gen/MutableState.lean"""
-    entries, problems, _ = _c18_scan.scan(vlib.REPO)
-    if problems:
-        raise vlib.Broken("translate", "; ".join(problems[:5]))
-    kinds = {"mutable": ".mutable_", "static": ".static_", "indirect": ".indirect"}
+    """regex-level scan of /repo/include + /repo/src -> lean/NanoVerif/Gen/MutableState.lean; every hit outside the reviewed
+    allow-list breaks the check HERE, before anything runs, naming file:line (the Lean theorem `mutable_state_allowlisted` then
+    fails as well: the table is written first)"""
+    hits, r = scan_hits(vlib.REPO)
+    entries = r["entries"]
     lines = [
         "-- GENERATED by tools/props/c18.py from a scan of include/ and src/ of the repository — do not edit",
-        "/-! every `mutable` data member, every non-const `static`/`thread_local`/namespace-scope variable and every data member",
-        "    through which `const` does not propagate (pointers / references to non-const, unique_ptr aliases) found in the",
-        "    current sources: (kind, file, class or function, name, declared type). -/",
+        "/-! every `mutable` data member, every non-const `static`/`thread_local`/namespace-scope variable (function-local statics",
+        "    included), every data member through which `const` does not propagate (pointers / references to non-const, unique_ptr",
+        "    aliases) and every data member whose class has mutable state (`holder`) found in the current sources:",
+        "    (kind, file, class or function, name, declared type). -/",
         "namespace NanoVerif.Gen.MutableState",
         "",
         "inductive Kind where",
-        "  | mutable_ | static_ | indirect",
+        "  | mutable_ | static_ | indirect | holder",
         "deriving DecidableEq, Repr",
         "",
         "structure Entry where",
@@ -169,17 +450,72 @@ def translate():
         "",
         "def table : List Entry := [",
     ]
-    rows = [f"  ⟨{kinds[k]}, {lean_str(f)}, {lean_str(sc)}, {lean_str(n)}, {lean_str(t)}⟩" for (k, f, sc, n, t) in entries]
+    rows = [f"  ⟨{KIND_LEAN[k]}, {lean_str(f)}, {lean_str(sc)}, {lean_str(n)}, {lean_str(t)}⟩" for (k, f, sc, n, t) in entries]
     lines.append(",\n".join(rows))
     lines += ["]", "", "end NanoVerif.Gen.MutableState", ""]
     vlib.write_if_changed(os.path.join(vlib.LEAN, "NanoVerif", "Gen", "MutableState.lean"), "\n".join(lines))
+    if hits:
+        raise vlib.Broken("scan", f"{len(hits)} hit(s) outside the reviewed allow-list: " + " | ".join(hits[:4]))
+
+
+SCAN_SELFTEST = [
+    # (file name, source text, [(kind, scope, name)] the scanner must report)
+    ("a.cpp", "namespace { template <class T> auto f(const T& h) { static T I; if (I.rows() != h.rows()) { I = h; } return I; } }",
+     [("static", "f", "I")]),
+    ("b.cpp", "void g() { const auto op = [&](int i) -> bool { static thread_local int calls = 0; return ++calls > i; }; op(1); }",
+     [("static", "g", "calls")]),
+    ("c.cpp", "namespace nano { int g_counter = 0; const int g_const = 1; static double g_scale; thread_local int tl; }",
+     [("static", "-", "g_counter"), ("static", "-", "g_scale"), ("static", "-", "tl")]),
+    ("d.h", "struct base_t { virtual void p() const = 0; }; class derived_t final : public base_t { void p() const override; "
+            "using buffers_t = std::vector<int>; mutable buffers_t m_buffers; int m_plain; };",
+     [("mutable", "derived_t", "m_buffers")]),
+    ("e.cpp", "int h() { static const auto cache = std::make_unique<int>(0); static const std::unique_ptr<int> p{new int}; "
+              "static const int k = 3; static constexpr int m = 4; return *p + k + m; }",
+     [("static", "h", "p")]),
+    ("f.h", "struct it_t { mutable int m_buf; }; struct model_t { it_t m_iterator; const it_t& m_ref; std::vector<it_t> m_all; int m_n; };"
+            " struct outer_t { model_t m_model; };",
+     [("mutable", "it_t", "m_buf"), ("holder", "model_t", "m_iterator"), ("holder", "model_t", "m_ref"),
+      ("holder", "model_t", "m_all"), ("holder", "outer_t", "m_model")]),
+    ("g.h", "class k_t { public: static int s_count; static inline long s_total = 0; static int get(); static const int c = 1; };",
+     [("static", "k_t", "s_count"), ("static", "k_t", "s_total")]),
+]
+
+
+def scan_selftest():
+    """the scanner on hand-written snippets of the constructs the property cares about (seeded changes C18-e1, C18-e2 included)"""
+    import shutil
+    import tempfile
+    out = []
+    os.makedirs(TMP, exist_ok=True)
+    root = tempfile.mkdtemp(prefix="scan-selftest-", dir=TMP)
+    try:
+        os.makedirs(os.path.join(root, "include"))
+        os.makedirs(os.path.join(root, "src"))
+        for name, text, _ in SCAN_SELFTEST:
+            open(os.path.join(root, "include" if name.endswith(".h") else "src", name), "w").write(text + "\n")
+        r = _c18_scan.scan_full(root)
+        got = {(os.path.basename(f), k, sc, n) for (k, f, sc, n, t) in r["entries"]}
+        want = {(name, k, sc, n) for name, _, es in SCAN_SELFTEST for (k, sc, n) in es}
+        for w in sorted(want - got):
+            out.append(f"scanner self-test: {w} not found")
+        for g in sorted(got - want):
+            out.append(f"scanner self-test: {g} reported but not expected")
+        for pb in r["problems"]:
+            out.append("scanner self-test: " + pb)
+    finally:
+        shutil.rmtree(root, ignore_errors=True)
+    return out
 
 
 def static_checks():
-    """cross-check of the scanner: every `mutable` keyword that is not a lambda specifier must have produced an entry"""
+    """(1) the scan against the allow-list (file:line of every hit); (2) cross-check of the scanner: every `mutable` keyword
+    that is not a lambda specifier must have produced an entry (every `static` / `thread_local` keyword must have been classified:
+    a problem of the scan itself); (3) the scanner's self-test; (4) ALLOW == lean/NanoVerif/Proofs/SharingAllow.lean; (5) no
+    stale entry in ALLOW (an entry the scan no longer finds must be removed: the list describes the current sources)"""
     import re
-    entries, problems, _ = _c18_scan.scan(vlib.REPO)
-    out = list(problems)
+    hits, r = scan_hits(vlib.REPO)
+    entries = r["entries"]
+    out = list(hits)
     count = 0
     for top in ("include", "src"):
         for root, _, names in os.walk(os.path.join(vlib.REPO, top)):
@@ -194,6 +530,16 @@ def static_checks():
     found = sum(1 for e in entries if e[0] == "mutable")
     if count != found:
         out.append(f"scanner found {found} mutable members but the sources contain {count} `mutable` declarations")
+    out += scan_selftest()
+    try:
+        if open(ALLOW_LEAN).read() != allow_lean_text():
+            out.append("lean/NanoVerif/Proofs/SharingAllow.lean differs from ALLOW of tools/props/c18.py "
+                       "(run `python3 tools/props/c18.py emit-allow`)")
+    except OSError as ex:
+        out.append(f"cannot read {ALLOW_LEAN}: {ex}")
+    for a in ALLOW:
+        if a[:5] not in set(entries):
+            out.append(f"stale allow-list entry (the scan no longer finds it): {a[:5]}")
     return out
 
 
@@ -284,6 +630,9 @@ def gen_reduce(rng, tier):
     return ops
 
 
+DIFF_DIMS = [2, 3, 4, 5, 7, 9, 13]   # pairwise distinct sizes of the functions minimised concurrently on one shared solver
+
+
 def gen_shared(rng, tier):
     ops = []
     thorough = tier == "thorough"
@@ -293,9 +642,18 @@ def gen_shared(rng, tier):
             reps = rng.range(1, 3)
             ls0 = rng.choice(LS0) if (sid in LSEARCH_SOLVERS and rng.chance(0.7)) else "-"
             lsk = rng.choice(LSK) if (sid in LSEARCH_SOLVERS and rng.chance(0.7)) else "-"
-            nf = rng.range(1, 4)
             pool = SMOOTH_FUNCTIONS if (sid in LSEARCH_SOLVERS or rng.chance(0.5)) else SMOOTH_FUNCTIONS + NONSMOOTH_FUNCTIONS
-            fs = " ".join(f"{rng.choice(pool)} {rng.range(2, 8)}" for _ in range(nf))
+            if rep == 0:
+                # EVERY solver id: functions of pairwise DIFFERENT sizes minimised at the same time (thread t, call r uses
+                # function (t + r) mod nf): state shared between calls and sized by the function (a static work matrix, a
+                # cached identity: seeded C18-e2) is resized under the other threads' feet
+                nf = rng.range(2, 4)
+                dims = rng.shuffle(list(DIFF_DIMS))[:nf]
+                T = max(T, nf)
+            else:
+                nf = rng.range(1, 4)
+                dims = [rng.range(2, 8) for _ in range(nf)]
+            fs = " ".join(f"{rng.choice(pool)} {d}" for d in dims)
             eps = rng.choice([1e-6, 1e-8, 1e-10])
             evals = rng.choice([100, 300, 1000])
             if sid in ("rqb", "fpba1", "fpba2"):    # a QP per iteration: 16 threads x 3 phases of a long run dominate the quick tier
@@ -312,6 +670,14 @@ def gen_shared(rng, tier):
     for kind in ["linear", "gboost"] * (5 if thorough else 2):
         ops.append(f"shared predict {kind} {rng.below(10**6)} {rng.range(40, 120)} {rng.range(2, 5)} {rng.range(0, 2)} "
                    f"{rng.choice([1, 2, 4, 16])} {rng.choice([2, 4, 8, 16])} {rng.range(1, 3)}")
+    # the INLINE path of pool_t::map: every predict call has at most as many samples as the model's batch, or the dataset's
+    # pool has one thread - the caller runs the operator itself with tnum 0, so all T callers use slot 0 of any per-thread
+    # buffer that belongs to the shared model / dataset (`shared_object_inline_calls_collide`, seeded C18-e1)
+    inline = [(16, 16, 12), (2, 16, 5), (1, 16, 0), (1, 10, 30), (16, 1000, 0), (4, 64, 40)]   # batch in [10, 10000]
+    for kind in ["linear", "gboost"]:
+        for (dsthreads, batch, maxn) in (inline if thorough else rng.shuffle(inline)[:3] + [(1, 16, 0)]):
+            ops.append(f"shared predict {kind} {rng.below(10**6)} {rng.range(40, 120)} {rng.range(2, 5)} {rng.range(0, 2)} "
+                       f"{dsthreads} {rng.choice([4, 8, 16])} {rng.range(2, 3)} {batch} {maxn}")
     return ops
 
 
@@ -325,6 +691,31 @@ def gen_wfit(rng, tier):
             dup = 1 if rng.chance(0.4) else 0
             ops.append(f"wfit {wid} {rng.below(10**6)} {rng.range(60, 150)} {rng.range(3, 8)} {rng.range(1, 3)} {task} {dup} "
                        f"{12 if thorough else 6} {show_configs(configs)}")
+    return ops
+
+
+GRID_POOLS = [2, 3, 4, 5, 7, 16]           # dataset pools compared with the sequential reference (pool 1)
+SCALAR_WLEARNERS = ["affine", "stump", "hinge", "dtree"]
+TABLE_WLEARNERS = ["dense-table", "kbest-table", "ksplit-table", "dstep-table"]
+
+
+def gen_wgrid(rng, tier):
+    """weak-learner fits over dataset pools of 1, 2, 3, 4, 5, 7, 16 threads with feature counts in every residue class modulo the
+    pool size: d = 1..32 continuous features for the learners that loop over scalar features (32 covers every residue of every
+    pool twice), 1..8 categorical features for the table learners (every residue of pools <= 7; 1..8 of 16). The residuals follow
+    the LAST feature of the kind (dup modes 2 / 3): a loop that does not visit the trailing features for some (features, threads)
+    pair (`feature_selection_thread_count_independent`, seeded C18-e3) fits another feature than the sequential reference."""
+    ops = []
+    thorough = tier == "thorough"
+    configs = [REF] + [(p, 0, 0, 0) for p in GRID_POOLS]
+    for d in range(1, 33):
+        for wid in (SCALAR_WLEARNERS if thorough else [SCALAR_WLEARNERS[d % 4], SCALAR_WLEARNERS[(d + 1 + d // 4) % 4]]):
+            ops.append(f"wfit {wid} {rng.below(10**6)} {rng.range(50, 90)} {d} {rng.range(0, 1)} reg 2 {2 if thorough else 1} "
+                       f"{show_configs(configs)}")
+    for ncat in range(1, 9):
+        for wid in (TABLE_WLEARNERS if thorough else [TABLE_WLEARNERS[ncat % 4], TABLE_WLEARNERS[(ncat + 2) % 4]]):
+            ops.append(f"wfit {wid} {rng.below(10**6)} {rng.range(60, 100)} {rng.range(0, 2)} {ncat} reg 3 {2 if thorough else 1} "
+                       f"{show_configs(configs)}")
     return ops
 
 
@@ -382,6 +773,19 @@ def gen_fit(rng, tier):
     return ops
 
 
+def gen_fit_grid(rng, tier):
+    """full gboost fits (stump / affine / dense-table prototypes, mse, no subsampling) under dataset pools 1, 2, 3, 4, 5, 7, 16 with
+    d + ncat around multiples of the pool sizes"""
+    ops = []
+    configs = [REF] + [(p, 0, 0, 0) for p in GRID_POOLS]
+    shapes = [(4, 1), (5, 0), (7, 2), (8, 1), (9, 0), (15, 2), (16, 1), (17, 0), (6, 1), (13, 2), (21, 0), (31, 2)]
+    for (d, ncat) in (shapes if tier == "thorough" else rng.shuffle(shapes)[:3] + [(9, 0)]):
+        protos = rng.choice(["stump", "stump,affine", "stump,dense-table" if ncat else "hinge,stump", "dtree"])
+        ops.append(f"fit gboost {rng.below(10**6)} {rng.range(80, 130)} {d} {ncat} reg mse 2 {rng.below(100)} 10 3 gboost off off "
+                   f"{protos} rss {rng.below(1000)} {fhex(0.2)} {rng.choice([10, 16, 32])} 0 {show_configs(configs)}")
+    return ops
+
+
 def gen(rng, tier):
     os.makedirs(TMP, exist_ok=True)
     COUNTS.clear()
@@ -392,8 +796,10 @@ def gen(rng, tier):
     ops += gen_reduce(rng, tier)
     ops += gen_shared(rng, tier)
     ops += gen_wfit(rng, tier)
+    ops += gen_wgrid(rng, tier)
     ops += gen_wtie(rng, tier)
     ops += gen_fit(rng, tier)
+    ops += gen_fit_grid(rng, tier)
     return ops
 
 
@@ -457,8 +863,21 @@ def nontrivial(op):
     return False
 
 
+def ranges_text(values):
+    vs = sorted(set(values))
+    out, i = [], 0
+    while i < len(vs):
+        j = i
+        while j + 1 < len(vs) and vs[j + 1] == vs[j] + 1:
+            j += 1
+        out.append(str(vs[i]) if i == j else f"{vs[i]}-{vs[j]}")
+        i = j + 1
+    return ",".join(out)
+
+
 def distribution(ops):
     d = {}
+    grid = {}
     for op in ops:
         t = op.split()
         k = f"{t[0]}/{t[1]}" if t[0] in ("shared", "fit", "reduce", "wtie") else t[0]
@@ -471,10 +890,27 @@ def distribution(ops):
         if t[0] == "fit" and t[1] == "gboost":
             k += "/" + t[6]
         d[k] = d.get(k, 0) + 1
+        if t[0] == "shared" and t[1] == "minimize":
+            dims = [int(x) for x in t[12::2]]
+            if len(set(dims)) >= 2:
+                d["shared/minimize:different-sizes"] = d.get("shared/minimize:different-sizes", 0) + 1
+                d["shared/minimize:different-sizes/" + t[2]] = d.get("shared/minimize:different-sizes/" + t[2], 0) + 1
+        if t[0] == "shared" and t[1] == "predict" and len(t) >= 12:
+            inline = int(t[7]) == 1 or (0 < int(t[11]) <= int(t[10]))
+            kk = f"shared/predict/{t[2]}:" + ("inline-path" if inline else "explicit-batch")
+            d[kk] = d.get(kk, 0) + 1
+        if t[0] in ("wfit", "fit"):
+            pools = sorted({c[0] for c in parse_configs_of(op)})
+            if pools == [1] + GRID_POOLS:
+                nfeat = int(t[4]) if (t[0] == "fit" or t[7] == "2") else int(t[5])
+                kind = "fit-gboost" if t[0] == "fit" else ("scalar" if t[7] == "2" else "sclass")
+                grid.setdefault(kind, []).append(nfeat)
         if t[0] in ("wfit", "fit"):
             i = nconf_index(t)
             if i is not None and t[i - 1 if t[0] == "fit" else 7] == "1":
                 d["duplicated-columns"] = d.get("duplicated-columns", 0) + 1
+    for kind, feats in grid.items():   # which pool sizes x feature counts were generated
+        d[f"grid:{kind}:pools=1,2,3,4,5,7,16:features={ranges_text(feats)}"] = len(feats)
     for k, v in COUNTS.items():      # what the oracle saw on the implementation's answers
         d["oracle:" + k] = v
     return d
@@ -803,3 +1239,20 @@ def shrink_candidates(op):
                 keep = [cs[0], cs[k]]
                 out.append(" ".join(head) + " " + show_configs(keep))
     return out
+
+
+if __name__ == "__main__":
+    # `python3 tools/props/c18.py scan [repo]`   the source scan alone, against the allow-list (exit 1 when there are hits)
+    # `python3 tools/props/c18.py emit-allow`    rewrite lean/NanoVerif/Proofs/SharingAllow.lean from ALLOW
+    cmd = sys.argv[1] if len(sys.argv) > 1 else "scan"
+    if cmd == "emit-allow":
+        vlib.write_if_changed(ALLOW_LEAN, allow_lean_text())
+        print("written", ALLOW_LEAN)
+    elif cmd == "scan":
+        hits, r = scan_hits(sys.argv[2] if len(sys.argv) > 2 else vlib.REPO)
+        for h in hits:
+            print("HIT " + h)
+        print(f"{len(r['entries'])} entries, {len(hits)} outside the allow-list")
+        sys.exit(1 if hits else 0)
+    else:
+        sys.exit("usage: c18.py scan [repo] | emit-allow")
